@@ -250,10 +250,18 @@ def e_approx_ops(a, o):
 def e_plot_diagrams(a, o):
     plt.close("all")
     fig, ax = plt.subplots()
+    labels = {"none": None, "full": ["first", "second"], "short": ["only one name"], "str": "both"}[o.get("labels", "none")]
+    keep = copy.deepcopy(labels)
+    dg = [_arr(a[0]), _arr(a[1])]
     with warnings.catch_warnings():
         warnings.simplefilter("ignore")
-        plot_diagrams([_arr(a[0]), _arr(a[1])], lifetime=o.get("lifetime", False), legend=o.get("legend", True), ax=ax)
+        plot_diagrams(dg, lifetime=o.get("lifetime", False), legend=o.get("legend", True), labels=labels, ax=ax)
+        if o.get("matching"):
+            d, m = bottleneck(dg[0], dg[1], matching=True)
+            bottleneck_matching(dg[0], dg[1], m, labels=labels if isinstance(labels, list) and len(labels) == 2 else ["dgm1", "dgm2"], ax=ax)
     plt.close("all")
+    if labels != keep:
+        raise Violation("argument_modified", "the labels list passed to plot_diagrams was modified: %r -> %r" % (keep, labels))
     return None
 
 
@@ -341,7 +349,7 @@ OPTS = {
     "heat": st.fixed_dictionaries({"sigma": st.sampled_from([0.4, 1.0, 10.0])}), "sliced_wasserstein": st.fixed_dictionaries({"M": st.sampled_from([1, 10, 50])}),
     "persistent_entropy": st.fixed_dictionaries({"single": st.booleans(), "normalize": st.booleans()}),
     "imager_transform": st.fixed_dictionaries({"single": st.booleans(), "skew": st.booleans(), "weight": st.sampled_from(["persistence", "linear_ramp"]),
-                                               "wp": st.just({}), "kernel": st.sampled_from(["gaussian", "uniform"]), "kp": st.just({})}),
+                                               "wp": st.just({}), "kernel": st.sampled_from(["gaussian", "uniform"]), "kp": st.just({}), "narrow": st.booleans()}),
     "imager_fit_transform": st.fixed_dictionaries({"single": st.booleans(), "skew": st.booleans(), "pixel": st.sampled_from([1.0, 0.5, 0.7])}),
     "imager_fit": st.fixed_dictionaries({"single": st.booleans(), "skew": st.booleans(), "pixel": st.sampled_from([1.0, 0.3])}),
     "imager_plots": st.fixed_dictionaries({"skew": st.booleans()}), "persimage_transform": st.fixed_dictionaries({"single": st.booleans(), "spread": st.sampled_from([1.0, 0.5])}),
@@ -349,7 +357,8 @@ OPTS = {
     "landscaper": st.fixed_dictionaries({"hom_deg": st.sampled_from([0, 1]), "flatten": st.booleans(), "start": st.sampled_from([None, None, 0.0, 1.0, 2.0]),
                                          "stop": st.sampled_from([None, None, 12.0, 9.0, 7.0])}), "death_vector": st.just({}),
     "exact_ops": st.fixed_dictionaries({"p": st.sampled_from([1, 2, 2.5])}), "approx_ops": st.fixed_dictionaries({"p": st.sampled_from([1, 2, 3.5])}),
-    "plot_diagrams": st.fixed_dictionaries({"lifetime": st.booleans(), "legend": st.booleans()}), "matching_plots": st.fixed_dictionaries({"kind": st.sampled_from(["b", "w"])}),
+    "plot_diagrams": st.fixed_dictionaries({"lifetime": st.booleans(), "legend": st.booleans(), "labels": st.sampled_from(["none", "full", "short", "str"]),
+                                            "matching": st.booleans()}), "matching_plots": st.fixed_dictionaries({"kind": st.sampled_from(["b", "w"])}),
     "kernels_weights": st.fixed_dictionaries({"cov": st.sampled_from([0.0, 0.5, 1.35])}),
 }
 
@@ -358,7 +367,10 @@ def fix_opts(name, o):
     o = dict(o)
     if name == "imager_transform":
         o["wp"] = {"n": 1.0} if o["weight"] == "persistence" else {"low": 0.0, "high": 1.0, "start": 0.0, "end": 3.0}
-        o["kp"] = {"sigma": [[1.0, 0.5], [0.5, 2.0]]} if o["kernel"] == "gaussian" else {"width": 1.5, "height": 2.5}
+        o["kp"] = {"width": 1.5, "height": 2.5}
+        if o["kernel"] == "gaussian":
+            # ordinary covariance, or a narrow strongly correlated one (pixel corners hundreds of sd away: the high-correlation branch)
+            o["kp"] = {"sigma": [[0.02, 0.019], [0.019, 0.02]]} if o.get("narrow") else {"sigma": [[1.0, 0.5], [0.5, 2.0]]}
     return o
 
 
